@@ -11,6 +11,8 @@ rows = []
 for i in ids:
     d = f'/verif/seeded/{i}'
     meta = json.load(open(f'{d}/meta.json'))
+    if meta.get('obsolete'):
+        print(i, 'obsolete: skipped'); continue
     prop = meta['property']
     props = [p for p in [prop] + EXTRA.get(prop, []) if p in claimed]
     # plus every property decided by a unit that extracts code from a file the change touches
